@@ -11,6 +11,29 @@ Every theorem holds for all requested parallelism `P` (`GOMAXPROCS = gmp ≥ 1` 
 size `B`, source lengths, latency patterns (= schedules), failure positions and consumer behaviours.
 Only property theorems and non-vacuity examples live here; invariants are in `Proofs/ParMap*.lean`.
 
+**Ties.** Every theorem below takes `cfg.code = Stream.code` / `Iter.code` (the regenerated code) and
+discharges *inside its own proof* everything the invariants assume about the Go source: `stream_ties` /
+`iter_ties` (`Proofs/ParMapTies.lean`) prove, by `decide` / `rfl` on the regenerated definitions, each field
+of `Code.Sound` — guards, capacities, `select` tables, presence facts, and the three disciplines computed
+from `Juniper.Gen.ParSync`: `Iter.sectionsAtomic` (MapIterator's two critical sections lock the same mutex
+field, which is the cond's locker — the reason `dAcquire` / `cYield` may be atomic labels),
+`Stream.ctxPlain` (the context handed to the source, to `f` and to the selects is
+`errgroup.WithContext(context.WithCancel(ctx))`, cancelled by `Close` only — it never ends by itself),
+`closeCancels` / `closeWaits` (`Close` is `s.cancel()` then `s.eg.Wait()`) — and the control skeletons of the
+mirrored bodies. A change of any of these facts makes the theorems *of this file* fail by name. The model
+follows the three disciplines: the examples marked "dependence" exhibit, in the LTS of code that violates
+one, the behaviour the theorem excludes.
+
+**Liveness wording.** `map_deadlock_free` / `mapIterator_deadlock_free` are *enabledness* statements about
+single reachable states (an internal step is enabled, or a call of `f` / of the source is outstanding).
+That pending calls actually return within a bounded number of steps — a decreasing measure — is
+`Props/C14Progress.lean`; the only scheduling assumption there is that an enabled step is eventually taken.
+"Consumer" is one goroutine: `closeCall` / `nextCall` are enabled only while it is not inside `Next` /
+`Close` (`cons = idle`), so "`Close` at any moment" means *any moment at which the single consumer is not
+inside `Next`* — with the pipeline in any state (dispatcher blocked on a token or inside the source, workers
+inside `f`, results waiting in `c` or the reorder buffer); `Close` concurrent with a `Next` of another
+goroutine is outside the model (stream protocol: `Next` and `Close` are not called concurrently).
+
 Ghost vocabulary: `s.srcItems` items taken from the source so far; `s.fBegun` / `s.fEnded` calls of `f`
 begun (index, argument) / returned (index, result); `s.results` what `Next` returned so far
 (`.val k v` = value `v` for source item `k`); `s.srcLog` calls on the source.
@@ -28,7 +51,7 @@ theorem mapStream_workers_and_tokens (P B : Int) (gmp : Nat) :
     Stream.numTokens cfg = (Stream.buf cfg).toNat ∧
     Stream.readyCap cfg = (Stream.buf cfg).toNat ∧ Stream.cCap cfg = (Stream.buf cfg).toNat := by
   intro cfg
-  have hs : cfg.code.Sound := stream_code_sound
+  have hs : cfg.code.Sound := stream_code_sound stream_ties
   refine ⟨S.par_eq hs, S.buf_eq hs, S.numWorkers_eq hs, S.numTokens_eq hs, ?_, ?_⟩
   · have := hs.readyCap (Stream.buf cfg); simp only [Stream.readyCap]; rw [this]
   · have := hs.cCap (Stream.buf cfg); simp only [Stream.cCap]; rw [this]
@@ -52,7 +75,7 @@ theorem map_order_exactly_once (cfg : Stream.Cfg) (hc : cfg.code = Stream.code) 
     (∀ k a, (k, a) ∈ s.fBegun → s.srcItems[k]? = some a) ∧
     (Stream.NextRes.end ∈ s.results →
         s.srcEnded = true ∧ S.nFail s = 0 ∧ cnt S.isVal s.results = s.srcItems.length) := by
-  have hs : cfg.code.Sound := hc ▸ stream_code_sound
+  have hs : cfg.code.Sound := hc ▸ stream_code_sound stream_ties
   have hV := S.invV hs h
   have hP := S.invP hs h
   refine ⟨hV.RV, ?_, ?_, hV.BG, ?_⟩
@@ -101,7 +124,7 @@ theorem inflight_bound (cfg : Stream.Cfg) (hc : cfg.code = Stream.code) (hg : 1 
     max cfg.B (Stream.par cfg) ≤ max cfg.B 0 + Stream.par cfg ∧
     Stream.par cfg = (if cfg.P ≤ 0 then (cfg.gmp : Int) else cfg.P) ∧
     (Stream.fRunning s : Int) ≤ Stream.par cfg := by
-  have hs : cfg.code.Sound := hc ▸ stream_code_sound
+  have hs : cfg.code.Sound := hc ▸ stream_code_sound stream_ties
   have hA := S.invA hs h
   have hpar := S.par_pos hs hg
   have hbuf := S.buf_eq hs
@@ -124,13 +147,16 @@ example : ∃ s, Stream.Reach ⟨Stream.code, 1, 1, 8⟩ s ∧ s.srcItems.length
   ⟨_, Stream.reach_of_run Stream.Reach.init (ls := [.dPull, .srcRet (.item 7), .dTakeToken, .dSend 0, .dPull,
       .srcRet (.item 8)]) rfl, rfl, rfl⟩
 
-/-- **Deadlock freedom (MapStream).** In every reachable state in which the consumer is inside `Next`
-(whatever the state of its context) or inside `Close`, some internal step of the library is enabled, or
-a call of `f` or a call on the source is in progress (these are assumed to return). -/
+/-- **Deadlock freedom (MapStream), enabledness form.** In every reachable state in which the consumer is
+inside `Next` (whatever the state of its context) or inside `Close`, some internal step of the library
+(a label with `isEnv = false`) is enabled, or the environment owes a return: a call of `f` is running
+(`fRunning > 0`) or a call on the source — `Next`, or the `Close` issued by the dispatcher — has not been
+answered (`srcBusy`). Nothing is said here about the enabled step being taken or about termination: that is
+`C14Progress.mapStream_next_terminates` / `mapStream_close_terminates` (measure). -/
 theorem map_deadlock_free (cfg : Stream.Cfg) (hc : cfg.code = Stream.code) (hg : 1 ≤ cfg.gmp)
     (s : Stream.St) (h : Stream.Reach cfg s) (hbusy : S.consBusy s.cons = true) :
     (∃ l s', l.isEnv = false ∧ Stream.step cfg s l = some s') ∨ 0 < Stream.fRunning s ∨ Stream.srcBusy s = true := by
-  have hs : cfg.code.Sound := hc ▸ stream_code_sound
+  have hs : cfg.code.Sound := hc ▸ stream_code_sound stream_ties
   rcases S.progress hs hg h hbusy with ⟨l, hl, hen⟩ | h' | h'
   · obtain ⟨s', hs'⟩ := Option.isSome_iff_exists.1 hen
     exact Or.inl ⟨l, s', hl, hs'⟩
@@ -146,21 +172,26 @@ example : ∃ s, Stream.Reach ⟨Stream.code, 2, 2, 8⟩ s ∧ S.consBusy s.cons
 
 /-- **Error rules (MapStream; C08 clauses).** (1) An error reported by `Next` is one that a call of `f`
 or the source actually returned, or the error of the context passed to `MapStream` after the caller
-cancelled it — never a cancellation the library caused itself. (2) The normal end is never reported
-when the source or a call of `f` failed. (3) No result at or beyond a failed item is ever yielded: the
-consumer's position never passes the index of a failed call of `f` (nor the number of items the source
-delivered), so the error comes after at most the results that precede it. -/
+cancelled it — never a cancellation the library caused itself. (1') The context the library hands to the
+source, to `f` and to its own selects is cancelled *by the library* (`ctxCause = lib`) only after a failure
+of the source or of `f` has been recorded in the errgroup — never by the passage of time, however long the
+source is idle, `f` runs or the consumer stays away (uses `Code.Sound.ctxPlain`: the context is
+`errgroup.WithContext(context.WithCancel(ctx))`, and `cancel` is called by `Close` only). (2) The normal end
+is never reported when the source or a call of `f` failed. (3) No result at or beyond a failed item is ever
+yielded: the consumer's position never passes the index of a failed call of `f` (nor the number of items the
+source delivered), so the error comes after at most the results that precede it. -/
 theorem mapStream_error_rules (cfg : Stream.Cfg) (hc : cfg.code = Stream.code) (hg : 1 ≤ cfg.gmp)
     (s : Stream.St) (h : Stream.Reach cfg s) :
     (∀ e, Stream.NextRes.err e ∈ s.results → S.genuine s e) ∧
+    (s.ctxCause = some .lib → s.egErr ≠ none) ∧
     (Stream.NextRes.end ∈ s.results → S.nFail s = 0) ∧
     (∀ k e, (k, Res.err e) ∈ s.fEnded → s.i ≤ k) ∧
     (∀ k v, Stream.NextRes.val k v ∈ s.results → k < s.i ∧ k < s.srcItems.length) := by
-  have hs : cfg.code.Sound := hc ▸ stream_code_sound
+  have hs : cfg.code.Sound := hc ▸ stream_code_sound stream_ties
   have hV := S.invV hs h
   have hP := S.invP hs h
   have hA := S.invA hs h
-  refine ⟨(S.invE hs hg h).E4, ?_, ?_, ?_⟩
+  refine ⟨(S.invE hs hg h).E4, (S.invB hs hg h).CA.1, ?_, ?_, ?_⟩
   · intro hend
     have hpos : 0 < cnt S.isEnd s.results := by
       unfold cnt; exact List.countP_pos_iff.2 ⟨_, hend, rfl⟩
@@ -208,22 +239,42 @@ example : ∃ s, Stream.Reach ⟨Stream.code, 2, 2, 8⟩ s ∧ s.results = [.err
       .wDefer 0, .wEgDone 0, .srcRet (.err 9002), .dCloseIn, .srcCloseRet, .dEgDone, .wExitIdle 1, .wDefer 1,
       .wEgDone 1, .nextCall true, .cRecv, .cRecvClosed, .cWaitDone]) rfl, rfl, rfl⟩
 
+/-- dependence on `ctxPlain`: in the LTS of code whose context can end by the library's own doing (e.g.
+`context.WithTimeout(ctx, time.Minute)` in place of `context.WithCancel(ctx)`: the generated fact
+`msCtxAssigns` changes, `Stream.ctxPlain = false`, the label `libCtxEnd` is enabled) the source delivers an
+item, then is idle; the library's context ends; the dispatcher, waiting for a token with both arms ready,
+takes the `ctx.Done()` arm; `Next` reports the library's own context error although neither the source nor
+`f` failed and nobody cancelled anything — (1) and (1') of `mapStream_error_rules` are false there. -/
+example : ∃ s, Stream.Reach ⟨{ Stream.code with ctxPlain := false }, 1, 1, 8⟩ s ∧
+    s.results = [.err .ctxLib] ∧ s.fEnded = [] ∧ s.srcErr = none ∧ s.parentCancelled = false ∧
+    s.closeCalled = false :=
+  ⟨_, Stream.reach_of_run Stream.Reach.init (ls := [.dPull, .srcRet (.item 7), .libCtxEnd, .dWaitCtx, .dCloseIn,
+      .srcCloseRet, .dEgDone, .wExitIdle 0, .wDefer 0, .wEgDone 0, .nextCall true, .cRecvClosed, .cWaitDone]) rfl,
+    rfl, rfl, rfl, rfl, rfl⟩
+
 /-- **Close (MapStream; C09 clauses).** In every reachable state the calls seen by the source are a
 sequence of complete `Next` calls followed by at most one `Close` (never `Next` after `Close`, never a
-second `Close`, never two calls at once — one goroutine issues them all). Once the stream's `Close` has
-returned: the dispatcher and every worker have finished, no call of `f` and no call on the source is in
-progress, and the source has been closed exactly once. (That `Close` does return is `map_deadlock_free`.) -/
+second `Close`, never two calls at once — one goroutine issues them all). From the moment the stream's
+`Close` is called the library's context is cancelled (`Close` cancels *before* it waits:
+`Code.Sound.closeCancels`). Once `Close` has returned (`Code.Sound.closeWaits`: it returns only when the
+errgroup is empty): the dispatcher and every worker have finished, no call of `f` and no call on the source
+is in progress, and the source has been closed exactly once (`Code.Sound.closesSource`). `Close` may be
+called at any moment at which the single consumer is not inside `Next` (`closeCall` is enabled iff
+`cons = idle`; see the header). That `Close` does return — within `SM.nu` steps once the outstanding calls
+of `f` / of the source have returned — is `C14Progress.mapStream_close_terminates`. -/
 theorem mapStream_close_returns_workers_stopped_source_closed (cfg : Stream.Cfg) (hc : cfg.code = Stream.code)
-    (hg : 1 ≤ cfg.gmp) (s : Stream.St) (h : Stream.Reach cfg s)
-    (_hdefer : Par.msDispClosesSource = true ∧ Par.msDispClosesIn = true ∧ Par.msCloseCancels = true ∧
-      Par.msCloseWaits = true ∧ Par.msCloseCancelBeforeWait = true := by decide) :
+    (hg : 1 ≤ cfg.gmp) (s : Stream.St) (h : Stream.Reach cfg s) :
     (∃ a, s.srcLog = S.pairs a ++ S.logTail s.disp) ∧
+    (s.cons = .closeWait ∨ s.cons = .closed → s.ctxCause ≠ none) ∧
     (s.cons = .closed →
       s.disp = .done ∧ (∀ pc ∈ s.ws, pc = .done) ∧ Stream.fRunning s = 0 ∧ Stream.srcBusy s = false ∧
       ∃ a, s.srcLog = S.pairs a ++ [SrcEv.closeBegin, SrcEv.closeEnd]) := by
-  have hs : cfg.code.Sound := hc ▸ stream_code_sound
+  have hs : cfg.code.Sound := hc ▸ stream_code_sound stream_ties
   have hL := (S.invL hs h).SL
-  refine ⟨hL, ?_⟩
+  refine ⟨hL, ?_, ?_⟩
+  · intro hc'
+    have hCL := (S.invB hs hg h).CL
+    exact hCL.2 (hCL.1.2 (by rcases hc' with hc' | hc' <;> simp [hc', S.cClosing]))
   intro hclosed
   have he := (S.invH hs hg h).CLd (by simp [hclosed, S.cClosedP])
   have ⟨hd, hw⟩ := S.all_done_of_egLive (S.invB hs hg h) he
@@ -247,6 +298,17 @@ example : ∃ s, Stream.Reach ⟨Stream.code, 1, 2, 8⟩ s ∧ s.cons = .closed 
       .srcRet (.err 9002), .dCloseIn, .srcCloseRet, .dEgDone, .fRet 0 (.ok 101), .wSendCtx 0, .wDefer 0, .wEgDone 0,
       .cCloseDone]) rfl, rfl, rfl⟩
 
+/-- dependence on `closeWaits` / `closeCancels`: in the LTS of a `Close` that does not wait for the errgroup,
+`Close` returns while the dispatcher is inside the source's `Next` and a call of `f` is running; in the LTS
+of a `Close` that waits without cancelling first, the library's context is still live while `Close` waits. -/
+example : (∃ s, Stream.Reach ⟨{ Stream.code with closeWaits := false }, 1, 1, 8⟩ s ∧ s.cons = .closed ∧
+      s.disp = .inNext ∧ Stream.fRunning s = 1) ∧
+    (∃ s, Stream.Reach ⟨{ Stream.code with closeCancels := false }, 1, 1, 8⟩ s ∧ s.cons = .closeWait ∧
+      s.ctxCause = none) :=
+  ⟨⟨_, Stream.reach_of_run Stream.Reach.init (ls := [.dPull, .srcRet (.item 7), .dTakeToken, .dSend 0, .dPull,
+      .closeCall, .cCloseDone]) rfl, rfl, rfl, rfl⟩,
+   ⟨_, Stream.reach_of_run Stream.Reach.init (ls := [.dPull, .closeCall]) rfl, rfl, rfl⟩⟩
+
 /-- **An expired consumer context costs nothing (MapStream; C08 clause).** The step in which `Next`
 returns its own context's error changes nothing but the consumer's program counter (and the log of
 results): the reorder buffer, the position, the result channel and the tokens are exactly as before, so
@@ -256,7 +318,7 @@ theorem mapStream_ctx_costs_nothing (cfg : Stream.Cfg) (hc : cfg.code = Stream.c
     (Stream.step cfg s .cCtx = some s' →
       s.cons = .next false ∧ s' = { s with cons := .idle, results := s.results ++ [.ctxCons] }) ∧
     (s.cons = .next false → Stream.canYield cfg s = true → (Stream.step cfg s .cYield).isSome = true) := by
-  have hs : cfg.code.Sound := hc ▸ stream_code_sound
+  have hs : cfg.code.Sound := hc ▸ stream_code_sound stream_ties
   constructor
   · intro hstep
     simp only [Stream.step] at hstep
@@ -287,7 +349,7 @@ theorem mapIterator_order_exactly_once (cfg : Iter.Cfg) (hc : cfg.code = Iter.co
         (k, v) ∈ s.fEnded ∧ I.ecnt k s.fEnded = 1 ∧ ∃ a, (k, a) ∈ s.fBegun ∧ s.srcItems[k]? = some a) ∧
     (∀ k, S.icnt k s.fBegun ≤ 1) ∧
     (Iter.NextRes.end ∈ s.results → s.srcEnded = true ∧ cnt I.isVal s.results = s.srcItems.length) := by
-  have hs : cfg.code.Sound := hc ▸ iter_code_sound
+  have hs : cfg.code.Sound := hc ▸ iter_code_sound iter_ties
   have hV := I.invV hs hg h
   have hP := I.invP hs h
   refine ⟨hV.RV, ?_, ?_, ?_⟩
@@ -320,7 +382,7 @@ theorem mapIterator_inflight_bound (cfg : Iter.Cfg) (hc : cfg.code = Iter.code) 
     (s : Iter.St) (h : Iter.Reach cfg s) :
     (s.srcItems.length : Int) ≤ cnt I.isVal s.results + max cfg.B (Iter.par cfg) + 1 ∧
     max cfg.B (Iter.par cfg) ≤ max cfg.B 0 + Iter.par cfg := by
-  have hs : cfg.code.Sound := hc ▸ iter_code_sound
+  have hs : cfg.code.Sound := hc ▸ iter_code_sound iter_ties
   have hA := I.invA hs hg h
   have hpar := I.par_pos hs hg
   have hbuf := I.buf_eq hs
@@ -337,13 +399,18 @@ theorem mapIterator_inflight_bound (cfg : Iter.Cfg) (hc : cfg.code = Iter.code) 
     unfold S.b2n; split <;> split <;> omega
   omega
 
-/-- **Deadlock freedom (MapIterator).** Whenever the consumer is inside `Next`, some internal step is
-enabled or a call of `f` or of the source iterator is in progress — in particular a dispatcher parked
-in `cond.Wait()` is always woken by the `Signal` of the `Next` that frees a slot. -/
+/-- **Deadlock freedom (MapIterator), enabledness form.** In every reachable state with the consumer inside
+`Next`, some internal step (`isEnv = false`) is enabled, or a call of `f` is running, or the source iterator
+has been asked for an item and has not answered — in particular a dispatcher parked in `cond.Wait()` is never
+what a quiescent state waits for: parked ⇒ `inFlight = bufferSize`, so the decrement of the `Next` that frees
+a slot hits `bufferSize-1` and its `Signal` finds the dispatcher registered. That rests on the two critical
+sections being atomic with respect to each other (`Code.Sound.sectionsAtomic`, used by the invariant
+`InvA.NC`/`PK`: both lock `mapIterator.m`, which is `cond.L`); without it the statement is false of the
+model (example below). Termination (measure): `C14Progress.mapIterator_next_terminates`. -/
 theorem mapIterator_deadlock_free (cfg : Iter.Cfg) (hc : cfg.code = Iter.code) (hg : 1 ≤ cfg.gmp)
     (s : Iter.St) (h : Iter.Reach cfg s) (hnext : s.cons = .next) :
     (∃ l s', l.isEnv = false ∧ Iter.step cfg s l = some s') ∨ 0 < Iter.fRunning s ∨ s.disp = .inNext := by
-  have hs : cfg.code.Sound := hc ▸ iter_code_sound
+  have hs : cfg.code.Sound := hc ▸ iter_code_sound iter_ties
   rcases I.progress hs hg h hnext with ⟨l, hl, hen⟩ | h' | h'
   · obtain ⟨s', hs'⟩ := Option.isSome_iff_exists.1 hen
     exact Or.inl ⟨l, s', hl, hs'⟩
@@ -355,5 +422,52 @@ theorem mapIterator_deadlock_free (cfg : Iter.Cfg) (hc : cfg.code = Iter.code) (
 example : ∃ s, Iter.Reach ⟨Iter.code, 1, 1, 8⟩ s ∧ s.results = [.val 0 100] ∧ s.disp = .acquire 8 :=
   ⟨_, Iter.reach_of_run Iter.Reach.init (ls := [.dPull, .srcRet (some 7), .dAcquire, .dSend 0, .dPull, .srcRet (some 8),
       .dAcquire, .fRet 0 100, .nextCall, .wHandOff 0, .cYield]) rfl, rfl, rfl⟩
+
+/-- dependence on `sectionsAtomic` — **the lost wakeup**: in the LTS of code whose two critical sections are
+not atomic with respect to each other (e.g. `Next` locks another mutex than the dispatcher: the generated
+`miNextSync` names `it.m2`, `Iter.sectionsAtomic = false`) the dispatcher's check and its parking are two
+steps. Parallelism 1, buffer 1: the dispatcher holds the second item and has seen the buffer full
+(`.checked 8`); the consumer's `Next` yields item 0, decrements `inFlight` to `bufferSize-1` and signals —
+nobody is registered yet; the dispatcher parks (`dPark`); the consumer calls `Next` again. Now no internal
+step is enabled, no call of `f` is running and the source is not being asked: every goroutine is asleep for
+good with `inFlight = 0`. `mapIterator_deadlock_free` (and every theorem of `C14Progress` about MapIterator)
+is false of that model. -/
+example : ∃ s, Iter.Reach ⟨{ Iter.code with sectionsAtomic := false }, 1, 1, 8⟩ s ∧ s.cons = .next ∧
+    s.disp = .parked 8 ∧ s.inFlight = 0 ∧ Iter.fRunning s = 0 ∧
+    (∀ l ∈ Iter.internalLabels s, Iter.step ⟨{ Iter.code with sectionsAtomic := false }, 1, 1, 8⟩ s l = none) :=
+  ⟨_, Iter.reach_of_run Iter.Reach.init (ls := [.dPull, .srcRet (some 7), .dAcquire, .dSend 0, .dPull,
+      .srcRet (some 8), .dAcquire, .fRet 0 100, .nextCall, .wHandOff 0, .cYield, .dPark, .nextCall]) rfl,
+    rfl, rfl, rfl, rfl, by decide⟩
+
+/-- the discipline predicates themselves (`Model/ParMap.lean`): they hold of the operation lists regenerated from
+the source as it is, and reject each of these variants of `mapIterator.Next` / the dispatcher / `MapStream` — `Next`
+locking a second mutex `m2`; `TryLock` instead of `Lock`; `Signal` after `Unlock`; `if` instead of `for` around
+`cond.Wait()`; the dispatcher incrementing `inFlight` after `Unlock`; a `context.WithTimeout` in place of
+`context.WithCancel`; a `defer cancel()` in `MapStream`. (Two of them — `Signal` after `Unlock`, `if` for `for` with
+one dispatcher and one consumer — are harmless in Go; the predicate pins the discipline the proofs were written for,
+not the weakest one.) -/
+example :
+    let disp := [("for", ""), ("Lock", "it.m"), ("for", "it.inFlight >= bufferSize"), ("Wait", "it.cond"), ("}", ""),
+      ("inc", "it.inFlight"), ("Unlock", "it.m"), ("}", "")]
+    let next := fun (lock unlock : String × String) => [("for", ""), ("if", "it.h.Len() > 0 && it.h.Peek().idx == it.i"), lock,
+      ("dec", "it.inFlight"), ("if", "it.inFlight == it.bufferSize-1"), ("Signal", "it.cond"), ("}", ""), unlock,
+      ("}", ""), ("}", "")]
+    let ok := fun d n f => Iter.sectionsAtomicOf d n ParSync.miCondInit f ParSync.miRestSync ParSync.miTouchers ParSync.parImports
+    Iter.sectionsAtomic = true ∧ Stream.ctxPlain = true ∧
+    ok disp (next ("Lock", "it.m") ("Unlock", "it.m")) ParSync.miFields = true ∧
+    ok disp (next ("Lock", "it.m2") ("Unlock", "it.m2")) (("it.m2", "sync.Mutex") :: ParSync.miFields) = false ∧
+    ok disp (next ("TryLock", "it.m") ("Unlock", "it.m")) ParSync.miFields = false ∧
+    ok disp [("for", ""), ("if", "it.h.Len() > 0 && it.h.Peek().idx == it.i"), ("Lock", "it.m"), ("dec", "it.inFlight"),
+      ("use", "wake := it.inFlight == it.bufferSize-1"), ("Unlock", "it.m"), ("if", "wake"), ("Signal", "it.cond"), ("}", ""),
+      ("}", ""), ("}", "")] ParSync.miFields = false ∧
+    ok [("for", ""), ("Lock", "it.m"), ("if", "it.inFlight >= bufferSize"), ("Wait", "it.cond"), ("}", ""),
+      ("inc", "it.inFlight"), ("Unlock", "it.m"), ("}", "")] (next ("Lock", "it.m") ("Unlock", "it.m")) ParSync.miFields = false ∧
+    ok [("for", ""), ("Lock", "it.m"), ("for", "it.inFlight >= bufferSize"), ("Wait", "it.cond"), ("}", ""),
+      ("Unlock", "it.m"), ("inc", "it.inFlight"), ("}", "")] (next ("Lock", "it.m") ("Unlock", "it.m")) ParSync.miFields = false ∧
+    Stream.ctxPlainOf [("ctx, cancel", "context.WithTimeout(ctx, time.Minute)"), ("eg, ctx", "errgroup.WithContext(ctx)")]
+      ParSync.msCtxShadows ParSync.msCancelUses ParSync.parImports = false ∧
+    Stream.ctxPlainOf ParSync.msCtxAssigns ParSync.msCtxShadows
+      [("MapStream", "defer cancel()"), ("MapStream", "cancel: cancel"), ("mapStream.Close", "s.cancel()")] ParSync.parImports = false := by
+  decide
 
 end Juniper.Props.C14
